@@ -59,7 +59,9 @@ func freesArg(fs []freeEnt) string {
 	return strings.Join(p, ";")
 }
 
-func objsArg(objs []scanObj) string {
+// objsArg: nr : header generation (from the sequential scan) : table generation (xgen, from the pdfcpu
+// context or the written xref; the header generation when there is no entry) : body
+func objsArg(objs []scanObj, xgen map[int]int) string {
 	var sb strings.Builder
 	for i, o := range objs {
 		if i > 0 {
@@ -68,6 +70,12 @@ func objsArg(objs []scanObj) string {
 		sb.WriteString(vh.Int(int64(o.nr)))
 		sb.WriteByte(':')
 		sb.WriteString(vh.Int(int64(o.gen)))
+		sb.WriteByte(':')
+		xg, ok := xgen[o.nr]
+		if !ok {
+			xg = o.gen
+		}
+		sb.WriteString(vh.Int(int64(xg)))
 		sb.WriteByte(':')
 		sb.WriteString(vh.Hex(o.body))
 	}
@@ -90,7 +98,7 @@ type outInfo struct {
 
 // evaluate runs O on one output and records the K cases. ctxFrees/ctxSize: from the pdfcpu context when
 // available (synthetic contexts), otherwise nil/-1 and the written xref is used.
-func evaluate(info outInfo, out []byte, eol string, oracle bool, ctxFrees []freeEnt, ctxSize int) {
+func evaluate(info outInfo, out []byte, eol string, oracle bool, ctxFrees []freeEnt, ctxSize int, ctxGens map[int]int) {
 	info.Len = len(out)
 	ck := checkFile(out, eol, info.Enc)
 	kind := "table"
@@ -114,7 +122,18 @@ func evaluate(info outInfo, out []byte, eol string, oracle bool, ctxFrees []free
 				cl = f.class + ":" + info.Op // the free list is op-specific, not writer-configuration-specific
 			}
 			if info.Variant != "" {
-				cl = f.class + ":" + info.Variant // generated documents: the document shape is what matters
+				// generated documents: name the root cause, not the writer configuration
+				opt := strings.HasSuffix(info.Variant, ":optimize")
+				switch {
+				case f.class == "inuse-generation" && opt:
+					cl = "inuse-generation:optimize-null-object" // optimize.go fixIndirectObject keeps the stale reference's generation
+				case f.class == "inuse-generation" && strings.Contains(info.Variant, "-oldgen"):
+					cl = "inuse-generation:stale-ref-older-generation" // writeNullObject header generation vs UndeleteObject generation
+				case f.class == "size-too-large" && opt && strings.Contains(info.Variant, "gen-stale-"):
+					cl = "size-too-large:optimize-null-object-unwritten" // the null object inserted by fixIndirectObject is never written
+				default:
+					cl = f.class + ":" + info.Variant
+				}
 			}
 			r.OracleFail(cl, info, f.detail)
 		}
@@ -162,6 +181,15 @@ func evaluate(info outInfo, out []byte, eol string, oracle bool, ctxFrees []free
 	if !sec.stream {
 		frees := ctxFrees
 		size := ctxSize
+		xgen := ctxGens
+		if xgen == nil {
+			xgen = map[int]int{}
+			for _, e := range sec.ents {
+				if e.typ == 1 {
+					xgen[e.nr] = e.b
+				}
+			}
+		}
 		if frees == nil {
 			for _, e := range sec.ents {
 				if e.typ == 0 {
@@ -175,7 +203,7 @@ func evaluate(info outInfo, out []byte, eol string, oracle bool, ctxFrees []free
 			tpre = tpre[2:i]
 		}
 		r.Case("layout", []string{vh.Int(int64(ck.scan.vmaj)), vh.Int(int64(ck.scan.vmin)), strconv.Itoa(eolIndex(eol)),
-			objsArg(ck.scan.objs), freesArg(frees), vh.Int(int64(size)), vh.Hex(tpre)}, vh.Hex(out))
+			objsArg(ck.scan.objs, xgen), freesArg(frees), vh.Int(int64(size)), vh.Hex(tpre)}, vh.Hex(out))
 		if oracle {
 			r.Case("check", []string{vh.Hex(out)}, strconv.Itoa(stage))
 		}
@@ -341,9 +369,12 @@ func synthetic(i int) {
 	}
 	var fs []freeEnt
 	var nrs []int
+	gens := map[int]int{}
 	for nr, e := range xt.Table {
 		if e.Free {
 			nrs = append(nrs, nr)
+		} else if e.Generation != nil {
+			gens[nr] = *e.Generation
 		}
 	}
 	sort.Ints(nrs)
@@ -356,7 +387,7 @@ func synthetic(i int) {
 	} else {
 		r.Count("synth:ill-formed-table")
 	}
-	evaluate(info, buf.Bytes(), eol, wf, fs, n)
+	evaluate(info, buf.Bytes(), eol, wf, fs, n, gens)
 }
 
 func must(err error) {
@@ -491,7 +522,7 @@ func runOp(source string, in []byte, o op, eolIdx int, xrefStream, objStream boo
 		r.Count("op-error:" + o.name)
 		return nil
 	}
-	evaluate(info, out.Bytes(), eol, true, nil, -1)
+	evaluate(info, out.Bytes(), eol, true, nil, -1, nil)
 	return out.Bytes()
 }
 
@@ -515,7 +546,7 @@ func increment(source string, base []byte, eolIdx int, xrefStream bool) {
 		r.Count("op-error:annotate-increment")
 		return
 	}
-	evaluate(info, m.b, eol, true, nil, -1)
+	evaluate(info, m.b, eol, true, nil, -1, nil)
 }
 
 // ---------------------------------------------------------------- generated raw documents with free entries
@@ -651,19 +682,23 @@ func generated() {
 									Eol: eolNames[eolIdx], XRef: map[bool]string{true: "stream", false: "table"}[k >= 1], ObjStm: k == 2, Seed: r.Seed,
 									Variant: variant + ":" + p.name, InputHex: vh.Hex(in)}
 								r.Count("gen:" + variant + ":" + p.name)
+								pclass := "panic:" + variant + ":" + p.name
+								if stale == "info" {
+									pclass = "panic:info-ref-free-object" // crypto.go fileID: o.String() on the nil result of Dereference
+								}
 								if panicked != nil {
-									r.OracleFail("panic:"+variant+":"+p.name, info, fmt.Sprint(panicked))
+									r.OracleFail(pclass, info, fmt.Sprint(panicked))
 									continue
 								}
 								if err != nil {
 									if strings.Contains(err.Error(), "panic") || strings.Contains(err.Error(), "runtime error") {
-										r.OracleFail("panic:"+variant+":"+p.name, info, err.Error())
+										r.OracleFail(pclass, info, err.Error())
 									} else {
 										r.Count("gen-op-error:" + variant + ":" + p.name)
 									}
 									continue
 								}
-								evaluate(info, out.Bytes(), eol, true, nil, -1)
+								evaluate(info, out.Bytes(), eol, true, nil, -1, nil)
 							}
 						}
 					}
@@ -821,12 +856,85 @@ func units() {
 	}
 }
 
+// UndeleteObject against undelete_object: unlinking from the chain and the generation decrement
+func undeleteUnits() {
+	for i := 0; i < r.Pick(400, 4000); i++ {
+		n := 3 + r.Rand.Intn(30)
+		xt := &model.XRefTable{Table: map[int]*model.XRefTableEntry{}}
+		xt.Size = &n
+		var chain []int
+		for nr := 1; nr < n; nr++ {
+			if r.Rand.Intn(3) == 0 {
+				chain = append(chain, nr)
+			} else {
+				g := 0
+				xt.Table[nr] = &model.XRefTableEntry{Generation: &g, Object: types.Integer(1)}
+			}
+		}
+		r.Rand.Shuffle(len(chain), func(a, b int) { chain[a], chain[b] = chain[b], chain[a] })
+		order := append([]int{0}, chain...)
+		var before []freeEnt
+		for k, nr := range order {
+			nx := int64(0)
+			if k+1 < len(order) {
+				nx = int64(order[k+1])
+			}
+			g := r.Rand.Intn(4) // 0 exercises the "only if > 0" guard
+			if nr == 0 {
+				g = 65535
+			}
+			gg := g
+			xt.Table[nr] = &model.XRefTableEntry{Free: true, Offset: &nx, Generation: &gg}
+			before = append(before, freeEnt{nr, int(nx), g})
+		}
+		target := 1 + r.Rand.Intn(n-1)
+		res := "panic"
+		func() {
+			defer func() { recover() }()
+			if err := xt.UndeleteObject(target); err != nil {
+				res = "err"
+				return
+			}
+			var after []freeEnt
+			for _, f := range before {
+				e := xt.Table[f.nr]
+				if e.Free {
+					after = append(after, freeEnt{f.nr, int(*e.Offset), *e.Generation})
+				}
+			}
+			e := xt.Table[target]
+			onChain := false
+			for _, c := range chain {
+				if c == target {
+					onChain = true
+				}
+			}
+			if onChain && !e.Free {
+				res = freesArg(after) + " gen=" + vh.Int(int64(*e.Generation))
+				var xe []xent
+				for _, f := range after {
+					xe = append(xe, xent{nr: f.nr, typ: 0, a: f.next, b: f.gen})
+				}
+				if fl := freeListFindings(xe); len(fl) > 0 {
+					r.OracleFail("free-list:UndeleteObject", map[string]any{"before": before, "undelete": target}, strings.Join(fl, "; "))
+				} else {
+					r.OracleOK()
+				}
+			} else {
+				res = freesArg(after) + " notfound"
+			}
+		}()
+		r.Case("undelete", []string{freesArg(before), vh.Int(int64(target))}, res)
+	}
+}
+
 func main() {
 	r = vh.Start("C18")
 	defer r.Finish()
 	api.DisableConfigDir()
 	modelLimit = r.Pick(70_000, 200_000)
 	units()
+	undeleteUnits()
 	for i := 0; i < r.Pick(250, 3000); i++ {
 		synthetic(i)
 	}
